@@ -70,6 +70,65 @@ def check_boolean(ctx, db):
     ctx.check(len(a) == 4 and a[2] == 'pftNonZero' and a[3] == 'pftNonZero' and a[0].startswith('v'), 'R-TABLE', 'boolean/fill-rules', f.loc(), 'both fill rules are non-zero and the clip type is the table\'s value', 'Execute(%s)' % a)
     tt = next((c for c in f.walk() if c.k == 'CallExpr' and c.callee == 'gdstk::tree_to_polygons'), None)
     ctx.check(tt is not None and norm(tt.args[1].text(ren)) == '$scaling' and norm(tt.args[2].text(ren)) == '$result', 'R-UNIT', 'boolean/same-scaling-back', f.loc(), 'the solution is converted back with the same scaling into the caller\'s result')
+    check_no_shortcut(ctx, f, 'boolean')
+
+
+_DB = {}
+
+
+def db_enum_operation(f):
+    return _DB['db'].enum('gdstk::Operation')['consts']
+
+
+def shortcut_eval(c, e1, e2, opv, f):
+    c = _strip_casts(c)
+    if c.k == 'ParenExpr':
+        return shortcut_eval(c.c[0], e1, e2, opv, f)
+    if c.k == 'UnaryOperator' and c.op == '!':
+        return not shortcut_eval(c.child('sub'), e1, e2, opv, f)
+    if c.k == 'BinaryOperator' and c.op == '&&':
+        return shortcut_eval(c.child('lhs'), e1, e2, opv, f) and shortcut_eval(c.child('rhs'), e1, e2, opv, f)
+    if c.k == 'BinaryOperator' and c.op == '||':
+        return shortcut_eval(c.child('lhs'), e1, e2, opv, f) or shortcut_eval(c.child('rhs'), e1, e2, opv, f)
+    if c.k == 'BinaryOperator' and c.op in ('==', '!='):
+        l, r = norm(c.child('lhs').text()), _strip_casts(c.child('rhs'))
+        eq = c.op == '=='
+        if l in ('polys1.count', 'polys2.count') and r.cv == 0:
+            return (e1 if l == 'polys1.count' else e2) == eq
+        if l == 'operation' and r.k == 'DeclRefExpr' and r.dk == 'enum':
+            return (opv == r.cv) == eq
+    raise AnalysisBroken('%s: shortcut condition `%s` is not over operand emptiness and the operation' % (f.qn, norm(c.text())[:80]))
+
+
+def check_no_shortcut(ctx, f, label):
+    """every return of a Clipper front end is dominated by Execute and by tree_to_polygons: no operand-dependent
+    shortcut decides the result without asking the clipper (A xor {} = A, {} or B = B, ... are easy to get wrong)"""
+    g = f.cfg
+    ex = [c for c in f.walk() if c.k == 'CXXMemberCallExpr' and (c.callee or '').endswith('::Execute')]
+    tt = [c for c in f.walk() if c.k == 'CallExpr' and c.callee == 'gdstk::tree_to_polygons']
+    rets = [r for r in f.walk() if r.k == 'ReturnStmt']
+    if not ex or not tt or not rets:
+        raise AnalysisBroken('%s: Execute / tree_to_polygons / return not found' % f.qn)
+    bad = [r for r in rets if not (any(g.node_dominates(e, r) for e in ex) and any(g.node_dominates(t, r) for t in tt))]
+    msgs = []
+    for r in bad:
+        # a shortcut is acceptable only if it is exact: it returns the (still empty) result precisely for operand/operation
+        # combinations whose set-algebra value is empty. Conditions over anything else are not recognised.
+        guards = [a for a in r.ancestors() if a.k == 'IfStmt']
+        if len(guards) != 1 or not any(x is r for x in guards[0].child('then').walk()):
+            raise AnalysisBroken('%s: early return at %s is not under a single if' % (f.qn, r.loc()))
+        ops = {c['n']: c['v'] for c in db_enum_operation(f)}
+        wrong = None
+        for e1 in (True, False):
+            for e2 in (True, False):
+                for op, opv in ops.items():
+                    if shortcut_eval(guards[0].child('cond'), e1, e2, opv, f):
+                        empty = {'Or': e1 and e2, 'And': e1 or e2, 'Xor': e1 and e2, 'Not': e1}[op]
+                        if not empty and wrong is None:
+                            wrong = (e1, e2, op)
+        if wrong:
+            msgs.append('the shortcut at %s returns an empty result for %s with first operand %s and second operand %s, whose value is not empty' % (r.loc(), wrong[2].upper(), 'empty' if wrong[0] else 'non-empty', 'empty' if wrong[1] else 'non-empty'))
+    ctx.check(not msgs, 'R-MUSTPASS', '%s/no-wrong-shortcut' % label, (bad[0] if bad else f).loc(), '%d of %d returns are dominated by Clipper::Execute and tree_to_polygons; every other return is an exact empty-result shortcut' % (len(rets) - len(bad), len(rets)), '; '.join(msgs))
 
 
 def check_wrappers(ctx, db):
@@ -159,6 +218,7 @@ def check_overflow(ctx, db):
 
 def run(ctx):
     db = ctx.db
+    _DB['db'] = db
     check_conversions(ctx, db)
     check_boolean(ctx, db)
     check_wrappers(ctx, db)
